@@ -10,7 +10,9 @@ VALS[11] = VALS[1] + np.array([[1e-9, 0.0], [0.0, -1e-9], [1e-10, 0.0]])
 S = np.array([[0.0, 0], [4, 0], [4, 3], [0, 4], [2, 2]])
 T = np.array([[0.0, 0], [5, 1], [4, 4], [-1, 3], [2, 1]])
 TRIS = np.array([[0, 1, 4], [1, 2, 4], [2, 3, 4], [3, 0, 4]])
-KINDS = ["PiecewiseAffine", "PythonPWA", "ThinPlateSplines", "Affine", "Chain", "AlignmentSimilarity", "Homogeneous"]
+KINDS = ["PiecewiseAffine", "PythonPWA", "ThinPlateSplines", "Affine", "Chain", "AlignmentSimilarity", "Homogeneous", "WithDimsList", "WithDimsSlice"]
+# whole-number points inside the source domain: the same VALUES as int64 / int32 / float32 arrays, batched or not
+WHOLE = np.array([[1, 1], [3, 1], [2, 2], [1, 2], [2, 1], [3, 2], [1, 3]])
 
 
 def make(kind):
@@ -30,11 +32,16 @@ def make(kind):
         return mt.Homogeneous(np.array([[1.0, 2, 0], [0, 1, 1], [0.1, 0, 1]]))
     if kind == "AlignmentSimilarity":
         return mt.AlignmentSimilarity(PointCloud(S), PointCloud(T))
+    if kind == "WithDimsList":
+        return mt.WithDims([1, 0])
+    if kind == "WithDimsSlice":
+        return mt.WithDims(slice(0, 2))
     return mt.TransformChain([mt.Translation([1.0, -2.0]), mt.PiecewiseAffine(TriMesh(S + [1.0, -2.0], trilist=TRIS), PointCloud(T)),
                               mt.UniformScale(2.0, 2)])
 
 
 _EXPECT = {}
+_WHOLE_REF = {}
 
 
 def expected(kind):
@@ -101,4 +108,27 @@ def replay(args):
                     "got": [got[0], got[1].tolist()], "want": [want[0], want[1].tolist()]}
         if not np.array_equal(arrays[a], keep):
             return {"step": k, "kind": kind, "what": "apply modified the caller's array"}
+        if got[0] == "ok" and ev["op"] == "apply" and np.shares_memory(got[1], arrays[a]):
+            return {"sig": None, "step": k, "kind": kind, "op": ev["op"], "array": a, "value": v, "batch": ev["batch"],
+                    "what": "the result shares memory with the array that was passed: editing either changes the other"}
+    # epilogue on the SAME object (whatever the history left in it): the value, not its number type or the batch size, decides
+    if kind not in _WHOLE_REF:
+        _WHOLE_REF[kind] = np.asarray(make(kind).apply(WHOLE.astype(float)), dtype=float)
+    ref = _WHOLE_REF[kind]
+    for dt in (np.int64, np.int32, np.float32):
+        for b in (None, 2, 3):
+            x = WHOLE.astype(dt)
+            try:
+                r = np.asarray(t.apply(x, batch_size=b), dtype=float)
+            except Exception as ex:
+                from ..core import from_library
+
+                if not from_library(ex):
+                    raise
+                return {"sig": None, "kind": kind, "what": "apply on a %s array (batch_size=%r) raised %s" % (np.dtype(dt).name, b, type(ex).__name__)}
+            if r.shape != ref.shape or not np.allclose(r, ref, rtol=0, atol=1e-4 if dt is np.float32 else 1e-9):
+                return {"sig": None, "kind": kind, "batch": b, "what": "apply on a %s array (batch_size=%r) differs from the same values as float64, unbatched" % (np.dtype(dt).name, b),
+                        "got": r.tolist(), "want": ref.tolist()}
+            if not np.array_equal(x, WHOLE.astype(dt)):
+                return {"sig": None, "kind": kind, "what": "apply modified the caller's integer array"}
     return None
